@@ -10,8 +10,10 @@ package props
 import (
 	"context"
 	"fmt"
+	"net"
 	"time"
 
+	"github.com/bbockelm/cedar/client/sharedport"
 	"github.com/bbockelm/cedar/security"
 	"github.com/bbockelm/cedar/server"
 	"github.com/bbockelm/cedar/stream"
@@ -117,6 +119,12 @@ func c19Between(res *vlib.Result, layer, hook, kind string) {
 }
 
 func c19BetweenCases(yield func(vlib.Case)) {
+	yield(vlib.Case{ID: "shared-port-stream/connect-deadline", Run: func() *vlib.Result {
+		res := &vlib.Result{}
+		c19SharedPort(res, 400*time.Millisecond)
+		c19SharedPort(res, 1500*time.Millisecond)
+		return res
+	}})
 	for _, layer := range []string{"handshake", "serveconn"} {
 		for _, hook := range []string{"per-command-policy", "post-auth-policy"} {
 			for _, kind := range []string{"cancel", "deadline"} {
@@ -136,4 +144,71 @@ func c19BetweenCases(yield func(vlib.Case)) {
 			}
 		}
 	}
+}
+
+// c19SharedPort: "a context that can never be cancelled adds no failure mode", on a stream
+// obtained through the shared-port dialer over real loopback TCP with a CONNECT context that
+// carries a deadline: once the stream is returned, what is done with it under
+// context.Background() - before and after the connect context's deadline has passed - must work.
+func c19SharedPort(res *vlib.Result, connectBudget time.Duration) {
+	res.Evals++
+	ln, err := net.Listen("tcp", "127.0.0.1:0")
+	if err != nil {
+		res.Outcome("listen-failed")
+		return
+	}
+	defer ln.Close()
+	bg := context.Background()
+	go func() { // shared_port front end + echo daemon
+		c, err := ln.Accept()
+		if err != nil {
+			return
+		}
+		defer c.Close()
+		st := stream.NewStream(c)
+		if _, err := st.ReceiveCompleteMessage(bg); err != nil { // the SHARED_PORT_CONNECT request
+			return
+		}
+		st = stream.NewStream(c)
+		for {
+			m, err := st.ReceiveCompleteMessage(bg)
+			if err != nil {
+				return
+			}
+			if err := st.SendMessage(bg, m); err != nil {
+				return
+			}
+		}
+	}()
+	ctx, cancel := context.WithTimeout(bg, connectBudget)
+	defer cancel()
+	dl, _ := ctx.Deadline()
+	s, err := sharedport.NewSharedPortClient("c19-check").ConnectViaSharedPort(ctx, ln.Addr().String(), "daemon_1", 5*time.Second)
+	id := fmt.Sprintf("stream from ConnectViaSharedPort (connect context with a %v deadline)", connectBudget)
+	if err != nil {
+		res.Violate("C19/harness", "%s: %v", id, err)
+		return
+	}
+	defer s.Close()
+	res.Nontrivial++
+	exchange := func(when string) bool {
+		if err := s.SendMessage(bg, []byte("ping-"+when)); err != nil {
+			res.Violate("C19/spurious-failure/shared-port-stream/"+when, "%s: send under context.Background() %s: %v", id, when, err)
+			return false
+		}
+		m, err := s.ReceiveCompleteMessage(bg)
+		if err != nil || string(m) != "ping-"+when {
+			res.Violate("C19/spurious-failure/shared-port-stream/"+when, "%s: receive under context.Background() %s: %v", id, when, err)
+			return false
+		}
+		return true
+	}
+	if !exchange("before-the-connect-deadline") {
+		return
+	}
+	time.Sleep(time.Until(dl) + 200*time.Millisecond)
+	if !exchange("after-the-connect-deadline") {
+		return
+	}
+	res.Outcome("shared-port-stream-unaffected-by-connect-deadline")
 }
